@@ -40,7 +40,23 @@ fn realise<T: Elem>(want: &BTreeSet<u32>, universe: u32, rng: &mut Rng) -> (SetC
     for id in extra {
         s.del(id);
     }
-    (s, spec)
+    // clone / clone_from are part of a construction history too: the operand may be a copy that was written over
+    // another set built with a different hasher state, capacity and layout
+    match rng.below(6) {
+        0 => {
+            let other_recipe = RECIPES[rng.usize_below(RECIPES.len())];
+            let mut d: SetC<T> = build(&Spec::random(rng, other_recipe));
+            d.0.clone_from(&s.0);
+            drop(s);
+            (d, spec)
+        }
+        1 => {
+            let d = SetC(s.0.clone());
+            drop(s);
+            (d, spec)
+        }
+        _ => (s, spec),
+    }
 }
 
 fn ids_of<'a, T: Elem + 'a>(it: impl Iterator<Item = &'a T>) -> Vec<u32> {
